@@ -499,4 +499,122 @@ where canonList : List PyVal → List Val
   | [] => []
   | x :: xs => PyVal.canon x :: canonList xs
 
+/-! ### follow-up 3: construction paths and histories
+
+  (a) The extra attributes of a `Term` (`extra="allow"`) live in a Python dict: items in
+  *insertion* order (keyword order, key order of the dict given to `model_validate`, key order
+  of a JSON document, order of a `model_copy(update=…)`).  `dict.__eq__` ignores that order.
+  The harness's walk sends the items sorted by key (`canonExtras`); that this is sound —
+  Python's `==` on two terms is equality of the canonical trees — is `C19_term_paths`.
+
+  (b) The positional signature of `find_tag` / `find_feature`: Python's binding of a call to a
+  parameter list (`bindCall`), the documented order as a table (`findTagSig`, re-extracted with
+  `inspect.signature` on every run).
+
+  (c) Histories: a function answered through a memo table keyed by a projection of its input
+  (`memoRun`), and a mutable object carrying a memoised hash (`Cell`).  The model itself is pure,
+  so every step of a history has one right answer — the base operation on the content the
+  objects carry at that step; the theorems say when code with such state agrees with that.
+-/
+
+/-- the extras of a term: `(key, value)` items in insertion order (keys distinct) -/
+abbrev Extras := List (String × String)
+
+/-- Python's `dict.__eq__`: the same number of items, and every key of `a` is a key of `b`
+    with an equal value -/
+def dictEqv (a b : Extras) : Bool :=
+  a.length == b.length && a.all fun kv => b.lookup kv.1 == some kv.2
+
+def keyLe (a b : String × String) : Bool := decide (a.1 ≤ b.1)
+
+/-- insertion into a key-sorted item list -/
+def insertKey (kv : String × String) : Extras → Extras
+  | [] => [kv]
+  | x :: xs => if keyLe kv x then kv :: x :: xs else x :: insertKey kv xs
+
+/-- `sorted(extra.items())`: what the harness's walk sends -/
+def canonExtras (a : Extras) : Extras := a.foldr insertKey []
+
+/-- a `Term` as it was constructed: the declared fields (`core`, whose `extra` is not used) and
+    the extras in insertion order -/
+structure RawTerm where
+  core : Term
+  extra : Extras
+  deriving Repr, DecidableEq
+
+def Term.noExtra (t : Term) : Term := { t with extra := [] }
+
+/-- pydantic's `__eq__` on two terms: the declared fields, and the extras as dicts -/
+def RawTerm.pyEq (a b : RawTerm) : Bool := decide (a.core.noExtra = b.core.noExtra) && dictEqv a.extra b.extra
+
+/-- the term the harness's walk describes -/
+def RawTerm.canon (a : RawTerm) : Term := { a.core with extra := canonExtras a.extra }
+
+def RawTerm.wf (a : RawTerm) : Prop := (a.extra.map (·.1)).Nodup
+
+/-- a hash that, unlike the code's `hash(self.name)`, also folds the extras in insertion order
+    (the kind of change the property forbids); `hx` is any hash of the item list -/
+def orderHash (hs : String → Int) (hx : Extras → Int) (mix : Int → Int → Int) (a : RawTerm) : Int :=
+  mix (hs a.core.name) (hx a.extra)
+
+/-- Python's binding of a call `f(*pos, **kw)` to the parameter names `params` (defaults are not
+    filled in): `none` = `TypeError` (too many positional arguments, an unknown or repeated keyword,
+    a keyword for a parameter already bound positionally) -/
+def bindCall {α} (params : List String) (pos : List α) (kw : List (String × α)) : Option (List (String × α)) :=
+  if params.length < pos.length then none
+  else if kw.all (fun p => (params.drop pos.length).contains p.1) && decide ((kw.map (·.1)).Nodup) then
+    some (params.zip pos ++ kw)
+  else none
+
+/-- the documented parameter order of `find_tag` and of `find_feature` (first parameter apart) -/
+def findTagSig : List String := ["tags", "label", "term", "default"]
+def findFeatureSig : List String := ["features", "label", "term", "default"]
+def encodingSig : List String := ["tags", "encoder"]
+
+/-- a function answered through a memo table keyed by `p x` (module / class level cache,
+    `lru_cache`, a dict kept between calls): one call -/
+def memoCall {α β κ} [BEq κ] (f : α → β) (p : α → κ) (c : List (κ × β)) (x : α) : List (κ × β) × β :=
+  match c.lookup (p x) with
+  | some v => (c, v)
+  | none => ((p x, f x) :: c, f x)
+
+/-- the answers of a history of calls in one process -/
+def memoRun {α β κ} [BEq κ] (f : α → β) (p : α → κ) : List (κ × β) → List α → List β
+  | _, [] => []
+  | c, x :: xs => (memoCall f p c x).2 :: memoRun f p (memoCall f p c x).1 xs
+
+/-- a mutable object that memoises a value derived from its content (`cached_property`, a private
+    attribute): the content it carries now, and the memo -/
+structure Cell (α : Type) where
+  content : α
+  memo : Option Int
+  deriving Repr
+
+/-- what a caller does with such an object between two uses -/
+inductive CellStep (α : Type)
+  | use                    -- `hash(obj)` (fills the memo)
+  | assign (x : α)         -- `obj.field = …`
+  | copyUpdate (x : α)     -- `obj = obj.model_copy(update=…)` / `copy.copy(obj)` then assignment: `__dict__` is copied
+  | rebuild (x : α)        -- a new object through the constructor
+
+/-- one step; `inval` = the object forgets its memo whenever its content changes.  The observation
+    of a `use` step is the value returned. -/
+def Cell.step {α} (h : α → Int) (inval : Bool) (c : Cell α) : CellStep α → Cell α × Option Int
+  | .use =>
+    match c.memo with
+    | some v => (c, some v)
+    | none => ({ c with memo := some (h c.content) }, some (h c.content))
+  | .assign x => ({ content := x, memo := if inval then none else c.memo }, none)
+  | .copyUpdate x => ({ content := x, memo := if inval then none else c.memo }, none)
+  | .rebuild x => ({ content := x, memo := none }, none)
+
+/-- run a history; the result lists, for every `use`, the value observed and the content the object
+    carried at that moment -/
+def Cell.run {α} (h : α → Int) (inval : Bool) : Cell α → List (CellStep α) → List (Int × α)
+  | _, [] => []
+  | c, s :: ss =>
+    match Cell.step h inval c s with
+    | (c', some v) => (v, c'.content) :: Cell.run h inval c' ss
+    | (c', none) => Cell.run h inval c' ss
+
 end SE.Encoding
